@@ -393,6 +393,16 @@ theorem merge_statements_shape :
        "set _.Topics = make(…)", "set _.Topics = append(_.Topics,ResponseTopic{…})",
        "if _.Partition!=_.Partition"].contains st) = true := by decide
 
+
+/-- client.go ConsumerOffsets: every decision / update visible in the source is one the model `consumerOffsets` makes:
+errors are tested on the call, on the whole answer and on each partition *by itself* (a test that also looks at whether
+an earlier partition already failed would store later failed partitions as −1), only the first error is kept, a
+partition without error is stored under its id with its committed offset (tolerant pin) -/
+theorem consumerOffsets_statements_shape :
+    (KV.Gen.Mappings.consumerOffsetsStatements.all fun st =>
+      ["if _!=nil", "set _[_] = _.Partitions[_].ID", "if _.Error!=nil", "if _==nil",
+       "set _[_.Partition] = _.CommittedOffset"].contains st) = true := by decide
+
 end fieldmaps
 
 /-! ## field mappings (`mapping_exact`) -/
